@@ -6,7 +6,9 @@ import (
 	"strings"
 	"time"
 
+	"codeberg.org/TauCeti/mangle-go/ast"
 	"codeberg.org/TauCeti/mangle-go/engine"
+	"codeberg.org/TauCeti/mangle-go/factstore"
 
 	"verifmc/mg"
 	"verifmc/oracle"
@@ -68,6 +70,7 @@ type c17Case struct {
 	seed   []string
 	limit  int
 	store  string
+	opt    string // "", "temporal-empty", "temporal-3", "detorder": further evaluation options next to the limit
 }
 
 func c17Cases(thorough bool) []c17Case {
@@ -98,7 +101,14 @@ func c17Cases(thorough bool) []c17Case {
 					if !thorough && si == 2 {
 						continue
 					}
-					out = append(out, c17Case{p.diverges, c17Decls + p.rules, p.nrule, p.name, seed, l, st})
+					out = append(out, c17Case{p.diverges, c17Decls + p.rules, p.nrule, p.name, seed, l, st, ""})
+				}
+				// the limit must hold whatever else is configured: single shapes also with a temporal store
+				// (empty / holding three facts) and with deterministic order
+				if !strings.Contains(p.name, "+") {
+					for _, o := range []string{"temporal-empty", "temporal-3", "detorder"} {
+						out = append(out, c17Case{p.diverges, c17Decls + p.rules, p.nrule, p.name, seed, l, "multiarray", o})
+					}
 				}
 			}
 		}
@@ -111,16 +121,16 @@ func c17Worker(tier string, shard, of, from int) {
 	rt.WorkerMain(shard, of, from, len(cases),
 		func(i int) string {
 			c := cases[i]
-			return fmt.Sprintf("%s seed=%v limit=%d store=%s", c.name, c.seed, c.limit, c.store)
+			return fmt.Sprintf("%s seed=%v limit=%d store=%s opt=%s", c.name, c.seed, c.limit, c.store, c.opt)
 		},
 		func(i int) rt.CaseResult { return c17Run(cases[i]) })
 }
 
 func c17Run(c c17Case) rt.CaseResult {
 	res := rt.CaseResult{Counters: map[string]int64{"states": 1, "evaluations": 1, "transitions": 1}}
-	w := map[string]any{"program": c.name, "source": c.src, "seed": c.seed, "limit": c.limit, "store": c.store}
+	w := map[string]any{"program": c.name, "source": c.src, "seed": c.seed, "limit": c.limit, "store": c.store, "opt": c.opt}
 	viol := func(kind, detail string) {
-		res.Violations = append(res.Violations, rt.Violation{Kind: kind, Detail: fmt.Sprintf("[%s seed=%v limit=%d store=%s] %s", c.name, c.seed, c.limit, c.store, detail), Witness: w})
+		res.Violations = append(res.Violations, rt.Violation{Kind: kind, Detail: fmt.Sprintf("[%s seed=%v limit=%d store=%s opt=%s] %s", c.name, c.seed, c.limit, c.store, c.opt, detail), Witness: w})
 	}
 	pp := prepare(c.src)
 	if pp.err != nil || pp.panicV != nil {
@@ -151,7 +161,20 @@ func c17Run(c c17Case) rt.CaseResult {
 	store := mg.NewStoreWithEDB(c.store, edb)
 	before := store.EstimateFactCount()
 	var everr error
-	pv, st := rt.Try(func() { everr = mg.Eval(pp.pi, store, engine.WithCreatedFactLimit(c.limit)) })
+	opts := []engine.EvalOption{engine.WithCreatedFactLimit(c.limit)}
+	switch c.opt {
+	case "temporal-empty":
+		opts = append(opts, engine.WithTemporalStore(factstore.NewTemporalStore()))
+	case "temporal-3":
+		ts := factstore.NewTemporalStore()
+		for i := int64(1); i <= 3; i++ {
+			ts.Add(ast.NewAtom("tmp", ast.Number(i)), ast.NewInterval(ast.NewTimestampBound(time.Unix(i, 0)), ast.NewTimestampBound(time.Unix(i+5, 0))))
+		}
+		opts = append(opts, engine.WithTemporalStore(ts))
+	case "detorder":
+		opts = append(opts, engine.WithDeterministicOrder())
+	}
+	pv, st := rt.Try(func() { everr = mg.Eval(pp.pi, store, opts...) })
 	res.Counters["traces_validated_against_impl"] = 1
 	if pv != nil {
 		viol("panic", fmt.Sprintf("%v at %s", pv, rt.ShortStack(st)))
@@ -222,7 +245,11 @@ func c17(r *rt.Run) {
 	}
 	if r.Replay != "" {
 		_, w := rt.ReadReplay(r.Replay)
-		c := c17Case{strings.Contains(fmt.Sprint(w["source"]), "merge("), fmt.Sprint(w["source"]), 3, fmt.Sprint(w["program"]), toStrings(w["seed"]), int(w["limit"].(float64)), fmt.Sprint(w["store"])}
+		opt := ""
+		if o, ok := w["opt"].(string); ok {
+			opt = o
+		}
+		c := c17Case{strings.Contains(fmt.Sprint(w["source"]), "merge("), fmt.Sprint(w["source"]), 3, fmt.Sprint(w["program"]), toStrings(w["seed"]), int(w["limit"].(float64)), fmt.Sprint(w["store"]), opt}
 		res := c17Run(c)
 		for _, v := range res.Violations {
 			r.Violate(v.Kind, v.Detail, v.Witness)
@@ -235,8 +262,8 @@ func c17(r *rt.Run) {
 	rt.RunSharded(r, len(cases), []string{"C17", "worker", r.Tier}, 20*time.Second, 6000000, func(idx int, label, how string) {
 		c := cases[idx]
 		r.Violate("did-not-return", fmt.Sprintf("[%s] evaluation with a fact limit did not return: %s", label, how),
-			map[string]any{"program": c.name, "source": c.src, "seed": c.seed, "limit": c.limit, "store": c.store})
+			map[string]any{"program": c.name, "source": c.src, "seed": c.seed, "limit": c.limit, "store": c.store, "opt": c.opt})
 	})
 	r.Finish("pool D: 21 program shapes (counters, guarded counters, list growth, pair nesting, let-transform counters, wide joins, divergence below negation / feeding aggregation, wrapping doubling, mutual counters, fan-out) and pairs of shapes, " +
-		"x 3 seeds x every limit in {1..12,16,32,100} x store kinds (exact count, over-estimating merged store); non-trivial = program with an infinite model; distinct by construction")
+		"x 3 seeds x every limit in {1..12,16,32,100} x store kinds (exact count, over-estimating merged store), single shapes also x {temporal store configured (empty / 3 facts), deterministic order}; non-trivial = program with an infinite model; distinct by construction")
 }
